@@ -198,7 +198,15 @@ pub fn gen_config(rng: &mut Rng, profile: Profile) -> Config {
     };
     let density = match profile {
         Lru | Admission => Density::Every,
-        Pure => Density::Every,
+        // C15: half of the pairs on the concurrent cache leave operations un-synced (an observation of
+        // an entry whose write is still pending must not change its fate)
+        Pure => {
+            if rng.chance(1, 2) {
+                Density::Every
+            } else {
+                Density::Sparse
+            }
+        }
         _ => {
             if rng.chance(2, 5) {
                 Density::Every
@@ -325,7 +333,7 @@ impl Gen {
             Admission => [25, 30, 3, 2, 3, 1, 1, 3, 0, 22],
             SketchApi => [22, 30, 8, 6, 6, 3, 3, 6, 6, 4],
             Iter => [28, 16, 6, 18, 6, 3, 3, 10, 5, 4],
-            Pure => [28, 26, 0, 0, 5, 2, 2, 12, 0, 10],
+            Pure => [28, 26, 0, 0, 5, 2, 2, 12, 5, 10],
             Bulk => [10, 40, 25, 5, 2, 0, 0, 10, 5, 0],
             Batch => [34, 22, 2, 1, 12, 1, 0, 1, 9, 18],
             Fault => [30, 22, 6, 5, 6, 3, 6, 10, 5, 7],
